@@ -119,7 +119,7 @@ pub fn decode_history(data: &[u8]) -> History {
         };
         ops.push(op);
     }
-    History { zeros: true, price, profile: Profile::Small, ts_mode, pool, ops, ghost: None, hold: head & 2 != 0, gen_start: if head & 4 != 0 { u64::MAX - 3 } else { 0 }, wrap_ok: false }
+    History { zeros: true, price, profile: Profile::Small, ts_mode, pool, ops, ghost: None, hold: head & 2 != 0, gen_start: if head & 4 != 0 { u64::MAX - 3 } else { 0 }, wrap_ok: false, max_rounds: 0 }
 }
 
 fn oracle_filter() -> Vec<Oracle> {
